@@ -48,7 +48,7 @@ def default_cfg():
 class Step:
     __slots__ = ('idx', 'ep', 'kind', 'op', 'args', 'ok', 'exc', 'ret', 'events', 'raw_events',
                  'out', 'out_frames', 'in_frames', 'chunk', 'tick', 'tainted', 'pre', 'units',
-                 'snap', 'rejected', 'obs', 'trailing', 'quirk')
+                 'snap', 'rejected', 'obs', 'trailing', 'quirk', 'exact')
 
     def __init__(self):
         self.exc = None
@@ -67,6 +67,7 @@ class Step:
         self.obs = None          # read-only window probes after the step {sid: (local, remote)}
         self.trailing = 0        # recv: bytes of a not yet complete frame held after this chunk
         self.quirk = None        # recv: a delivered frame hits a documented dependency quirk
+        self.exact = False       # recv: exactly one dispatch unit and nothing else in this chunk (exact attribution)
 
     def brief(self):
         d = {'i': self.idx, 'ep': self.ep, 'k': self.kind}
@@ -366,6 +367,10 @@ class World:
             return
         units = list(e.in_tap.last_units)
         s.units = units
+        if len(units) == 1:
+            own = set(id(x) for x in (units[0].block_frames or [units[0]]))
+            s.exact = all(id(fr) in own for fr in s.in_frames) and (s.ok or s.trailing < 9)
+
         out_rst = set(f.sid for f in s.out_frames if f.type == C.RST_STREAM)
         pres = []
         rej = []
@@ -411,6 +416,9 @@ class World:
                 r = (f.promised in out_rst) or (f.sid in out_rst)
             rej.append(r)
             last = (i == len(units) - 1)
+            if f.table_updates and not f.hpack_error and \
+                    max(f.table_updates) > trk.mine.get(C.S_HEADER_TABLE_SIZE, 4096):
+                f.hpack_error = 'dynamic table size update above the acknowledged HEADER_TABLE_SIZE'
             trk.on_in(f, r, conn_error and last)
         s.pre = pres
         s.rejected = rej
@@ -447,7 +455,9 @@ class World:
         p.delivered += n
         s = self._new_step(dst.name, 'recv')
         s.chunk = chunk
-        s.tainted = p.tainted
+        # a Byzantine fault in one direction also shows in the other (the peer answers what it was fed:
+        # an ACK for a SETTINGS frame nobody sent, a RST_STREAM for an injected frame ...)
+        s.tainted = self.pipes['c2s'].tainted or self.pipes['s2c'].tainted
         s.in_frames = dst.in_tap.feed(chunk)
         s.trailing = len(dst.in_tap.buf)
         for f in s.in_frames:
